@@ -129,7 +129,17 @@ Definition s_final (w : world) : sexp :=
 
 Definition trace_of (w : world) : trace := rev (out w).
 
+(* the ghost history, oldest first, for the comparison with the implementation's call history:
+   (t 0 entry dest) = queue_send, (t 1 dest entries) = a collector hands over, (t 2 entries dest) = send_sd *)
+Definition s_gev (p : N * gev) : sexp :=
+  match snd p with
+  | GQueue e d => L [A (fst p); A 0; s_entry e; s_dest d]
+  | GFlush d es => L [A (fst p); A 1; s_dest d; slist s_entry es]
+  | GSend es d _ _ => L [A (fst p); A 2; slist s_entry es; s_dest d]
+  end.
+Definition s_glog (w : world) : sexp := slist s_gev (rev (glog w)).
+
 Definition run_op (arg : sexp) : option sexp :=
   let? sc := d_scenario arg in
   let '(w, completed) := run_scenario sc in
-  Some (L [s_trace (rev (out w)); sbool completed; s_final w]).
+  Some (L [s_trace (rev (out w)); sbool completed; s_final w; s_glog w]).
